@@ -554,8 +554,8 @@ def classifier_cases(ctx, a_csr, X, labels, cfg):
     # 1. forward through all layers with the fitted parameters
     toks = ' '.join(layer_tokens(l, a) for l, a in zip(g.layers, adjs))
     key = ('gnn', toks, enc_any(X_in))
-    out.append(Case(key, dict(sig, check='forward'), 'c19.gnn %s %s' % (enc_any(X_in), toks), 'ok ' + enc_out(output), None,
-                    a_csr.nnz > 0, desc))
+    out.append(Case(key, dict(sig, check='forward'), 'c19.gnn %s %s' % (enc_any(X_in), toks), 'ok ' + enc_out(output),
+                    'c19.spec_gnn %s %s d:%s' % (enc_any(X_in), toks, enc_out(output)), a_csr.nnz > 0, desc))
     # 2. one label per node: arg-max / threshold of the output
     o_tok = enc_dense(output)
     labs = np.asarray(g.labels_)
